@@ -46,24 +46,53 @@ def gen_history(r, path, nops, grow):
     buf = r.choice([4096, 4096, 8192])
     setup, st = ["db 1"], {1: {}}
     dbs = [1]
-    if r.random() < 0.4:
+    inplace = (not grow) and r.random() < 0.6
+    if r.random() < (0.8 if inplace else 0.4):
         setup.append("db 2"); st[2] = {}; dbs.append(2)
     keys = [b"k%03d" % i for i in range(r.choice([6, 20, 50]))] + [bytes([65 + i]) * r.choice([40, 120, 200]) for i in range(2)]
     if grow:
         big = r.choice([30000, 60000, 100000])
         setup += ["put 1 %s %d 9" % (b"grow".hex(), big), "del 1 %s" % b"grow".hex()]
     # some committed content before the enumeration starts
-    for _ in range(r.randrange(0, 25)):
+    # (in-place profile: mostly a small store whose file never grows, so that close has no tail to trim and its
+    # checkpoint is not preceded by the resize-forced one of open finding F26)
+    for _ in range(0 if inplace and r.random() < 0.7 else r.randrange(0, 25)):
         d, k = r.choice(dbs), r.choice(keys)
         ln, seed = r.choice([r.randrange(1, 60), r.randrange(1, 600), r.randrange(600, 5000)]), r.randrange(1, 250)
         setup.append("put %d %s %d %d" % (d, k.hex(), ln, seed)); st[d][k] = (ln, seed)
     setup.append(r.choice(["ckpt", "sync", "ckpt"]))
     ops, acts = [], []
+    presetup = len(setup)
     psync = r.choice([0.1, 0.2, 0.35])
-    for _ in range(nops):
+    # in-place profile: few keys, one value length per key (overwrites stay inside the record), savepoints but no checkpoint:
+    # one log generation holds records of the same locations in front of and behind a savepoint
+    fixed = {}
+    if inplace:
+        keys = keys[:r.choice([2, 4, 6])]
+        fixed = {k: r.choice([8, 30, 100]) for k in keys}
+        ck = setup.pop()                       # every key exists with its final length before the last checkpoint of the set-up
+        for d in dbs:
+            for k in keys:
+                seed = r.randrange(1, 250)
+                setup.append("put %d %s %d %d" % (d, k.hex(), fixed[k], seed)); st[d][k] = (fixed[k], seed)
+        setup.append("ckpt" if r.random() < 0.8 else ck)
+    # two-phase shape of the in-place profile: up to the last savepoint only database 1 is written, behind it database 1 is
+    # overwritten again and database 2 is touched for the first time in this log generation (blocks with records on one
+    # side of the savepoint only, next to blocks with records on both sides)
+    twophase = inplace and len(dbs) >= 2 and r.random() < 0.7
+    cutover = int(nops * r.choice([0.4, 0.6, 0.8]))
+    seen_a = set()
+    for step in range(nops):
         x = r.random()
+        if twophase and step == cutover:
+            ops.append("sync"); acts.append(("sync",))
+            continue
+        if twophase and step > cutover and x < psync + 0.07:
+            x = 0.99                            # no savepoint behind the cut-over
         if x < psync:
             ops.append("sync"); acts.append(("sync",))
+        elif inplace and x < psync + 0.07:
+            continue
         elif x < psync + 0.04:
             ops.append("ckpt"); acts.append(("ckpt",))
         elif x < psync + 0.07 and len(dbs) < 4:
@@ -71,12 +100,19 @@ def gen_history(r, path, nops, grow):
             ops.append("db %d" % d); acts.append(("db", d))
         else:
             d, k = r.choice(dbs), r.choice(keys)
-            if r.random() < 0.25:
+            if twophase and step < cutover:
+                d = dbs[0]
+                seen_a.add(k)
+            elif twophase and d == dbs[0] and seen_a and r.random() < 0.8:
+                k = r.choice(sorted(seen_a))
+            if r.random() < (0.25 if not inplace else 0.08):
                 ops.append("del %d %s" % (d, k.hex())); acts.append(("del", d, k))
             else:
                 ln = r.choice([r.randrange(1, 40), r.randrange(1, 300), r.randrange(300, 3000), r.randrange(3900, 4300),
                                r.randrange(4000, 9000)] + ([] if grow else [r.randrange(9000, 40000)]))
                 seed = r.randrange(1, 250)
+                if inplace:
+                    ln = fixed[k]
                 ops.append("put %d %s %d %d" % (d, k.hex(), ln, seed)); acts.append(("put", d, k, ln, seed))
     ops.append("close"); acts.append(("close",))
     lines = ["hist-begin %s %d %d" % (path, crc, buf)] + setup + ["---"] + ops + ["hist-end"]
